@@ -57,6 +57,16 @@ type TraceRec struct {
 
 var callSeq int64
 
+// node is the second item representation: distinct items are distinct pointers whose
+// contents look alike, and f mutates the item it processes - identity, not appearance,
+// is what "distinct item" means for a set of map keys.
+type node struct {
+	Label  string
+	Visits int
+}
+
+var runSeq int64
+
 const freeHang = 60 * time.Second
 const maxEvents = 400
 
@@ -72,15 +82,41 @@ func runOne(n int, g Graph, strat vsched.Strategy, budget int) ([]Event, vsched.
 		}
 		mu.Unlock()
 	}
+	usePtr := atomic.AddInt64(&runSeq, 1)%2 == 0
+	nodes := map[string]*node{}
+	names := map[*node]string{}
+	var nmu sync.Mutex
+	toItem := func(x string) any {
+		if !usePtr {
+			return x
+		}
+		nmu.Lock()
+		defer nmu.Unlock()
+		if nodes[x] == nil {
+			nodes[x] = &node{Label: "n"}
+			names[nodes[x]] = x
+		}
+		return nodes[x]
+	}
+	fromItem := func(item any) string {
+		if s, ok := item.(string); ok {
+			return s
+		}
+		p := item.(*node)
+		nmu.Lock()
+		defer nmu.Unlock()
+		p.Visits++
+		return names[p]
+	}
 	body := func() {
 		w := &par.Work{}
 		for _, x := range g.Init {
 			log("AddCall", "main", x)
-			w.Add(x)
+			w.Add(toItem(x))
 		}
 		log("DoCall", "main", "-")
 		w.Do(n, func(item any) {
-			x := item.(string)
+			x := fromItem(item)
 			var r string
 			if s := vsched.Cur(); s != nil {
 				r = s.Current().Name
@@ -91,7 +127,7 @@ func runOne(n int, g Graph, strat vsched.Strategy, budget int) ([]Event, vsched.
 			vsched.Yield("f")
 			for _, y := range g.Succ[x] {
 				log("AddCall", r, y)
-				w.Add(y)
+				w.Add(toItem(y))
 			}
 			log("FEnd", r, x)
 		})
